@@ -49,13 +49,19 @@ def run(chk):
     chk.bounds.update({'E-MIR': 'model_check_formula_unsafe_ex and eval_node (steady-state argument = free symbolic set) executed from MIR, n=2, k<=2, all transition systems',
                        'E-UNI': 'model_check_formula_unsafe_ex vs model_check_formula_dirty on instances U2, C2, M2; for formulas outside the fragment the miter is restricted to colours without a steady state'})
     pairs = operand_pairs()
+    N0, N1 = ('not', P0), ('not', P1)
+    lits = [P0, N0, P1, N1, ('and', P0, P1), ('and', N0, P1), ('and', P0, N1), ('and', N0, N1)]
+    # unary fragment operators over single states / conjunctions of literals (set-shape dependent fast paths), nested once
+    pairs += [(u, a) for u in ('AG', 'EF') for a in lits] + [(u1, (u2, a)) for u1, u2 in (('EF', 'AG'), ('AG', 'EF'), ('not', 'AG')) for a in lits[4:]]
+    # duplicates with two free variables equal up to a swap (only model_check_formula_unsafe_ex builds its context from a single tree)
+    pairs += [f for f in G.swapped_duplicates() if in_fragment(f)]
     frag = core_fragment() + small_binder_formulas() + pairs + [G.random_formula(chk.rng, 3, ['v0', 'v1'], ops_un=FRAG_UN, ops_bin=FRAG_BIN) for _ in range(40 if thorough else 8)]
     other = core_other() + [G.random_formula(chk.rng, 3, ['v0', 'v1']) for _ in range(30 if thorough else 6)]
     other = [f for f in other if not in_fragment(f)]
     # the shortcut '!{x}: AX {x}' is documented as unsupported by the variant and is excluded (it contains AX anyway)
     tasks = []
     nf = len(core_fragment()) + len(small_binder_formulas())
-    sel = [f for f in pairs if f[1][0] in ('not', 'prop') and f[2][0] == 'and'] if not thorough else pairs      # E-MIR: literal W/U conjunction (quick)
+    sel = [f for f in pairs if f[0] not in ('EU', 'AW') or (f[1][0] in ('not', 'prop') and f[2][0] == 'and')] if not thorough else pairs      # E-MIR: literal W/U conjunction (quick)
     for f in frag[:nf] + sel + frag[nf + len(pairs):][:(30 if thorough else 6)]:
         k = S.quant_depth(f) or 1
         if k > 2: continue
